@@ -390,11 +390,12 @@ func VerifH_range_restart() {
 	} else {
 		vnd.Assert(len(offs) == n, "C02 after a restart a new client is refused only when the range is full")
 	}
-	// a known client gets its stored address back
-	if nrows > 0 {
-		req2 := &dhcpv4.DHCPv4{OpCode: dhcpv4.OpcodeBootRequest, HWType: iana.HWTypeEthernet, ClientHWAddr: net.HardwareAddr{0x00, 0x11, 0x22, 0x33, 0x44, 0x55}, Options: dhcpv4.Options{}}
+	// every stored client gets its stored address back (whatever the length of its hardware address)
+	hw := []net.HardwareAddr{{0x00, 0x11, 0x22, 0x33, 0x44, 0x55}, {0xaa, 0xbb, 0xcc, 0xdd, 0xee, 0xff, 0x00, 0x11}, {0x05}, {}}
+	for i := 0; i < nrows; i++ {
+		req2 := &dhcpv4.DHCPv4{OpCode: dhcpv4.OpcodeBootRequest, HWType: iana.HWTypeEthernet, ClientHWAddr: hw[i], Options: dhcpv4.Options{}}
 		resp2 := &dhcpv4.DHCPv4{OpCode: dhcpv4.OpcodeBootReply, Options: dhcpv4.Options{}}
 		r2, _ := h(req2, resp2)
-		vnd.Assert(r2 != nil && r2.YourIPAddr.To4() != nil && r2.YourIPAddr.To4()[3] == lo+offs[0], "C03 after a restart a client is given the address it had before")
+		vnd.Assert(r2 != nil && r2.YourIPAddr.To4() != nil && r2.YourIPAddr.To4()[3] == lo+offs[i], "C02 after a restart a client is given the address it was first given")
 	}
 }
